@@ -41,6 +41,10 @@ FAULT = [  # (kind, pad, cap, fault kind, kmax, programs)  - post-fault operatio
     ('bq', 60, 2, 'assign', 3, ['push:11,push:12,push:13', 'push:21', 'wpop,wtry_pop,pop,pop']),
     ('cq', 132, 0, 'assign', 3, ['push:11,push:12,push:13,try_pop,try_pop,try_pop,try_pop']),
     ('cq', 132, 0, 'ctor', 3, [','.join('push:%d' % (100 + i) for i in range(6)), ','.join('push:%d' % (200 + i) for i in range(6)), ','.join(['try_pop'] * 13)]),
+    # an invalid entry with ONE valid item behind it and several poppers at once: while one popper has claimed the invalid ticket and not yet accounted for it, another
+    # try_pop must not report 'empty' (the emptiness estimate subtracts the invalid entry; the item behind it has been there all along)
+    ('cq', 132, 0, 'ctor*150', 2, ['push:11,push:12,try_pop', 'try_pop,try_pop', 'try_pop,try_pop']),
+    ('cq', 4, 0, 'ctor*150', 2, ['push:11,push:12,push:13,try_pop', 'try_pop,try_pop', 'try_pop']),
 ]
 
 
@@ -99,7 +103,7 @@ def run(res, tier, seed):
     for k, (pad, cap, progs) in enumerate(BQ):
         jobs.append(('bq-%d' % k, [exe, 'random', 'bq', str(pad), str(cap), str(n), str(seed * 2003 + k)], progs))
     for k, (kind, pad, cap, fk, kmax, progs) in enumerate(FAULT):
-        jobs.append(('fault-%s-%s-%d' % (kind, fk, k), [exe, 'fault', kind, str(pad), str(cap), fk, str(kmax if not thorough else kmax + 2)], progs))
+        jobs.append(('fault-%s-%s-%d' % (kind, fk.replace('*', 'x'), k), [exe, 'fault', kind, str(pad), str(cap), fk, str(kmax if not thorough else kmax + 2)], progs))
     cmds = []; tfs = []
     for name, pre, progs in jobs:
         tf = os.path.join(vlib.BUILD, 'traces', 'c09-%s-%d.ndjson' % (name, os.getpid())); tfs.append(tf)
